@@ -12,7 +12,7 @@ import (
 
 func init() {
 	register("C01",
-		"Decides structural necessary conditions of the FIFO contract of UnsafeLinkBuffer, not the byte values: (R1) in every size-taking Reader method nothing is mutated before the Len() < n test has failed (a short read consumes nothing); (R2) every method that advances a node's read offset first subtracts from the atomic length through recalLen with a negated count, and every method that makes bytes readable (Flush, bookAck, WriteBuffer) adds through recalLen; (R3) the length has a single writer set (recalLen, Close, the fresh Slice reader, the donor reset) and the Peek cache is invalidated inside recalLen on every negative delta; (R4) every nil-returning path of MallocAck stores the malloc offset of the node the write cursor ends on (bytes discarded by MallocAck(0) do not become readable); (R5) a node's Malloc is reached only after growth() (which leaves on a managed node with room, or a fresh one) or from book(); (R6) the reader side never reads the writer's cursor (it stops at flush), and Append links the donor chain from the donor's read cursor; (R7, shared with C02) Slice nodes pin the root block by its reference count. Not decided: which bytes are returned, order, exactly-once, Len/MallocLen values, node-boundary arithmetic, Append/Slice content - value properties of a linked structure that need shape analysis plus arithmetic.",
+		"Decides structural necessary conditions of the FIFO contract of UnsafeLinkBuffer, not the byte values: (R1) in every size-taking Reader method nothing is mutated before the Len() < n test has failed (a short read consumes nothing); (R2) every method that advances a node's read offset first subtracts from the atomic length through recalLen with a negated count, and every method that makes bytes readable (Flush, bookAck, WriteBuffer) adds through recalLen; (R3) the length has a single writer set (recalLen, Close, the fresh Slice reader, the donor reset) and the Peek cache is invalidated inside recalLen on every negative delta; (R4) every nil-returning path of MallocAck stores the malloc offset of the node the write cursor ends on (bytes discarded by MallocAck(0) do not become readable); (R5) a node's Malloc is reached only after growth() (which leaves on a managed node with room, or a fresh one) or from book(); (R6) the reader side never reads the writer's cursor (it stops at flush), and Append links the donor chain from the donor's read cursor; (R7, shared with C02) Slice nodes pin the root block by its reference count; (R8) every site that makes bytes pending adds the same count to mallocSize. Not decided: which bytes are returned, order, exactly-once, Len/MallocLen values, node-boundary arithmetic, Append/Slice content - value properties of a linked structure that need shape analysis plus arithmetic.",
 		[]string{"single reader / single writer per buffer (API contract)"},
 		func(r *Run) {
 			cfgs := []string{"linux"}
@@ -240,11 +240,32 @@ func c01(r *Run) {
 		bad := 0
 		var wit0 *Witness
 		var site0 ssa.Instruction
-		for _, s := range sites {
-			ss := &Search{Fn: fn, Stop: isRecalNeg}
-			wit := ss.Find([]Start{Entry(fn)}, isIns(s), false)
+		// unsubtracted: a path from the entry of f to site without recalLen(-n); for an unexported helper the
+		// obligation moves to its callers (every call of the helper must itself come after recalLen(-n))
+		var unsubtracted func(f *ssa.Function, site ssa.Instruction, depth int) *Witness
+		unsubtracted = func(f *ssa.Function, site ssa.Instruction, depth int) *Witness {
+			ss := &Search{Fn: f, Stop: isRecalNeg}
+			wit := ss.Find([]Start{Entry(f)}, isIns(site), false)
 			r.Visited += ss.Visited
-			if wit != nil {
+			if wit == nil || depth >= 2 || token.IsExported(f.Name()) {
+				return wit
+			}
+			callers := callSitesOf(w, f)
+			if len(callers) == 0 {
+				return wit
+			}
+			for _, cs := range callers {
+				if _, isDefer := cs.(*ssa.Defer); isDefer {
+					return wit
+				}
+				if cw := unsubtracted(cs.Parent(), cs, depth+1); cw != nil {
+					return cw
+				}
+			}
+			return nil
+		}
+		for _, s := range sites {
+			if wit := unsubtracted(fn, s, 0); wit != nil {
 				bad++
 				if wit0 == nil {
 					wit0, site0 = wit, s
@@ -558,6 +579,89 @@ func c01(r *Run) {
 		})
 		if n == 0 {
 			r.absentf(" C01: WriteBuffer links nothing behind the write cursor")
+		}
+	}
+	// ---- R8 pending bytes are counted in mallocSize ------------------------------------------------------
+	{
+		nodeMalloc := w.MustFn("(*linkBufferNode).Malloc")
+		addOperand := func(i ssa.Instruction) (ssa.Value, bool) {
+			st, ok := i.(*ssa.Store)
+			if !ok || !isStoreToField(i, "UnsafeLinkBuffer", "mallocSize") {
+				return nil, false
+			}
+			b, ok := st.Val.(*ssa.BinOp)
+			if !ok || b.Op != token.ADD {
+				return nil, false
+			}
+			if _, isLoad := loadOfField(b.X, "UnsafeLinkBuffer", "mallocSize"); isLoad {
+				return b.Y, true
+			}
+			if _, isLoad := loadOfField(b.Y, "UnsafeLinkBuffer", "mallocSize"); isLoad {
+				return b.X, true
+			}
+			return nil, false
+		}
+		isAdd := func(i ssa.Instruction) bool { _, ok := addOperand(i); return ok }
+		sameCount := func(a, b ssa.Value) bool {
+			if a == b {
+				return true
+			}
+			la, oka := a.(*ssa.Call)
+			lb, okb := b.(*ssa.Call)
+			if oka && okb {
+				ba, isBa := la.Call.Value.(*ssa.Builtin)
+				bb, isBb := lb.Call.Value.(*ssa.Builtin)
+				return isBa && isBb && ba.Name() == "len" && bb.Name() == "len" && la.Call.Args[0] == lb.Call.Args[0]
+			}
+			return false
+		}
+		exempt := map[string]string{"book": "the poller's reservation is committed at once by bookAck; the input path does not use mallocSize"}
+		nProd := 0
+		for _, fn := range w.Funcs {
+			if fn.Signature.Recv() == nil || !isPointerToNamed(fn.Signature.Recv().Type(), "UnsafeLinkBuffer") || exempt[fn.Name()] != "" {
+				continue
+			}
+			// nodes that get caller memory in this function
+			callerNodes := map[ssa.Value]bool{}
+			forEachIns(fn, func(i ssa.Instruction) {
+				if st, ok := i.(*ssa.Store); ok && isStoreToField(i, "linkBufferNode", "buf") && derivesFromParam(st.Val, fn, 0) {
+					callerNodes[nodeOrigin(st.Addr.(*ssa.FieldAddr).X, i, 0)] = true
+				}
+			})
+			for _, i := range allIns(fn) {
+				var count ssa.Value
+				what := ""
+				if isCall(i, nodeMalloc) {
+					count, what = callCommon(i).Args[1], "node.Malloc"
+				} else if st, ok := i.(*ssa.Store); ok && isStoreToField(i, "linkBufferNode", "malloc") && callerNodes[nodeOrigin(st.Addr.(*ssa.FieldAddr).X, i, 0)] {
+					count, what = st.Val, "caller-memory node"
+				} else {
+					continue
+				}
+				nProd++
+				key := "C01.R8:pending-bytes-counted:" + siteKey(w, i)
+				rule := "a writer method that makes bytes pending (a node Malloc, or a node wrapping the caller's slice) adds their count to mallocSize on every path through that site: MallocLen() equals the pending byte count, and Append does not drop a buffer whose only content is pending"
+				before := &Search{Fn: fn, Stop: isAdd}
+				w1 := before.Find([]Start{Entry(fn)}, isIns(i), false)
+				after := &Search{Fn: fn, Stop: isAdd}
+				w2 := after.Find([]Start{After(i)}, nil, true)
+				r.Visited += before.Visited + after.Visited
+				if w1 != nil && w2 != nil {
+					r.obW(key, rule, fn, i, w1, "")
+					continue
+				}
+				// the amount added is the amount produced
+				same := false
+				forEachIns(fn, func(j ssa.Instruction) {
+					if v, ok := addOperand(j); ok && sameCount(v, count) {
+						same = true
+					}
+				})
+				r.ob(key, rule, fn, i, same, what+": mallocSize += the same count on every path", true)
+			}
+		}
+		if nProd < 2 {
+			r.absentf(" C01: only %d sites that make bytes pending", nProd)
 		}
 	}
 	// R7: a block that is still being read must not be recycled under the reader (borrowed reference-count rules)
